@@ -229,9 +229,11 @@ pub fn drive()
     let mut rng = params.case_rng(0);
     let shards = params.shards.max(1);
 
+    // VERIF_NOHASH=1 (used under Miri, which cannot execute the SHA-256 dependency): codec cases only
+    let nohash = crate::verif::util::env_u64("VERIF_NOHASH", 0) == 1;
     // every length 0..=1100 (around the 256-byte read buffer), split across shards
     let mut len = params.shard as usize;
-    while len <= 1100
+    while len <= 1100 && !nohash
     {
         hash_file_case(&mut ctx, &mut rng, len as u64, len, true);
         len += shards as usize;
@@ -239,7 +241,7 @@ pub fn drive()
     // boundary lengths again with other contents, and random larger files
     for k in 0..params.cases
     {
-        if params.out_of_time() { break; }
+        if params.out_of_time() || nohash { break; }
         let len = match k % 4 { 0 => [255usize, 256, 257, 511, 512, 513, 1023, 1024, 1025, 55, 56, 63, 64, 65, 119, 120][rng.below(16)], 1 => rng.below(3000), 2 => rng.below(70_000), _ => rng.below(if params.thorough() { 1_100_000 } else { 300_000 }) };
         hash_file_case(&mut ctx, &mut rng, 10_000 + k, len, k % 8 == 0);
         ctx.tally.cases_run += 1;
@@ -312,6 +314,7 @@ pub fn drive()
     // directory trees
     for k in 0..(params.cases / 2).max(20)
     {
+        if nohash { break; }
         directory_case(&mut ctx, &mut rng, 60_000 + k);
     }
 
